@@ -67,6 +67,12 @@ T = {
  "C08w2-m2": ("C08", "early termination (max_time / equil / rate): the last trial is recorded but never compared with the best", ["C08"]),
  "C13w2-m1": ("C13", "via / implementation / autojit / sort_contraction_indices left out of the expression cache key: same contraction with and without `via`", ["C13"]),
  "C13w2-m2": ("C13", "path cache keyed on the raw (un-canonicalised) edge path: two networks equal up to renaming queried with the same edge path", ["C13"]),
+ "C07w2-m1": ("C07", "targets passed to SliceFinder.search() itself (overriding the constructor's) are ignored by the final selection", ["C07"]),
+ "C07w2-m2": ("C07", "tree.slice(reslice=True, inplace=False) on an already sliced tree: the finder looks at self, the indices are removed from the copy", ["C07"]),
+ "C10w2-m1": ("C10", "ssa_to_linear without N on a complete SSA path with a step of >=3 tensors (N inferred as if pairwise)", ["C10"]),
+ "C10w2-m2": ("C10", "from_path(edge_path=...) filters output indices out of the edge path: output index carried by >=2 inputs", ["C10"]),
+ "C12w2-m1": ("C12", "interleaved call form with an explicit EMPTY output sublist treated as 'no output given'", ["C12"]),
+ "C12w2-m2": ("C12", "size-1 output index lost in a matmul step (same site as C01-m1/C11-m1): needs a size-1 dim + contracted index + one kept index per side", ["C12", "C11", "C01"]),
 }
 for name, (prop, needs, caught) in sorted(T.items()):
     d = os.path.join(S, name)
